@@ -21,7 +21,7 @@ import ast
 from fractions import Fraction
 from typing import Callable, Dict, List, Optional, Tuple
 
-from .model import dotted
+from .model import dotted, ufunc_as_operator
 
 Axis = Optional[Fraction]
 
@@ -377,6 +377,9 @@ class CoordInterp:
                 return self._unknown("non-constant exponent", e)
             return self._elementwise(l, r, e.op, e)
         if isinstance(e, ast.Call):
+            op_ = ufunc_as_operator(self.ext_name(e), e)
+            if op_ is not None:
+                return self.eval(op_, env)
             return self._call(e, env)
         if isinstance(e, (ast.ListComp, ast.GeneratorExp)):
             env2 = dict(env)
